@@ -23,17 +23,37 @@ func c01(tier string) {
 		"per-value atoms are placed on single-valued properties and containsAll/containsSome on non-empty value sets (DESIGN §5 C01 fence i)",
 		"the reference evaluator is the harness's reading of the statement of C01; atoms are true/false by construction of the data",
 	}
-	type job struct {
-		stream int
-		spec   lib.WorldSpec
-	}
 	nSkel := ctx.N(120, 1800)  // profiles, 3 families each
 	nQuant := ctx.N(70, 900)   // profiles, 2 families each
-	matrix := map[string]int{} // connective|parity|parent
-	var samples []any
 	total := nSkel + nQuant
-	results := make([]func(), total)
-	lib.ParallelFor(total, 0, func(i int) {
+	if !ctx.IsShard() {
+		ctx.RunShards()
+	} else {
+		c01Workload(ctx, nSkel, total)
+		ctx.FinishShard()
+	}
+	matrix := ctx.CountersWithPrefix("matrix:")
+	ctx.Extra["connective_context_matrix_cells"] = len(matrix)
+	// the matrix must show every connective under both polarities
+	for _, conn := range []string{"and", "or", "not", "if", "ifelse", "atom", "quant"} {
+		for _, par := range []string{"neg0", "neg1"} {
+			found := false
+			for k := range matrix {
+				if strings.HasPrefix(k, conn+"|"+par+"|") {
+					found = true
+				}
+			}
+			if !found {
+				ctx.Inconclusive(fmt.Sprintf("coverage matrix has no cell for %s under %s", conn, par))
+			}
+		}
+	}
+	ctx.MinDistinct = 50
+	ctx.Finish()
+}
+
+func c01Workload(ctx *lib.Ctx, nSkel, total int) {
+	ctx.ForEach(total, func(i int) {
 		quant := i >= nSkel
 		stream := 1
 		if quant {
@@ -90,7 +110,7 @@ func c01(tier string) {
 		ptext := prof.Text()
 		dtext := g.CanonicalJSONLD()
 		o := lib.Validate(ptext, dtext)
-		results[i] = func() {
+		func() {
 			replay := map[string]any{"profile": ptext, "data": dtext, "case": i}
 			if o.Failed() {
 				ctx.Eval("")
@@ -114,7 +134,7 @@ func c01(tier string) {
 				ctx.Eval(key)
 				ctx.Count("target_nodes_judged", len(c.targets))
 				lib.CoverFormula(c.f, 0, "top", func(conn string, parity int, parent string) {
-					matrix[fmt.Sprintf("%s|neg%d|%s", conn, parity, parent)]++
+					ctx.Count(fmt.Sprintf("matrix:%s|neg%d|%s", conn, parity, parent), 1)
 				})
 				if c.base {
 					ctx.Count("formulas_base", 1)
@@ -138,40 +158,14 @@ func c01(tier string) {
 					ctx.Violation("reported-set", fmt.Sprintf("validation %s formula %s: reported %v, reference evaluator says %v", c.name, lib.FString(c.f), short(g), short(e)), rp)
 				}
 			}
-			if len(samples) < 3 && len(cases) > 0 {
-				samples = append(samples, map[string]any{"formula": lib.FString(cases[0].f), "rewrite": lib.FString(cases[1].f), "expected_reported": cases[0].expected, "targets": len(cases[0].targets), "profile_head": head(ptext, 30)})
+			if i < 3 && len(cases) > 0 {
+				ctx.Sample(map[string]any{"formula": lib.FString(cases[0].f), "rewrite": lib.FString(cases[1].f), "expected_reported": cases[0].expected, "targets": len(cases[0].targets), "profile_head": head(ptext, 30)})
 			}
 			if defects := lib.CheckWellFormed(rep, lib.WFInput{}); len(defects) > 0 {
 				ctx.Count("note_C12_defects_seen", 1)
 			}
-		}
+		}()
 	})
-	for _, f := range results {
-		if f != nil {
-			f()
-		}
-	}
-	for _, s := range samples {
-		ctx.Sample(s)
-	}
-	ctx.Extra["connective_context_matrix_cells"] = len(matrix)
-	ctx.Extra["connective_context_matrix"] = matrix
-	// the matrix must show every connective under both polarities
-	for _, conn := range []string{"and", "or", "not", "if", "ifelse", "atom", "quant"} {
-		for _, par := range []string{"neg0", "neg1"} {
-			found := false
-			for k := range matrix {
-				if strings.HasPrefix(k, conn+"|"+par+"|") {
-					found = true
-				}
-			}
-			if !found {
-				ctx.Inconclusive(fmt.Sprintf("coverage matrix has no cell for %s under %s", conn, par))
-			}
-		}
-	}
-	ctx.MinDistinct = 50
-	ctx.Finish()
 }
 
 func short(xs []string) []string {
